@@ -308,6 +308,127 @@ def out_edges_harness(ctx):
               note="direct and indirect edges alike: the operand named A, the edge led to A's referent")
 
 
+# ---- "no referent" requests, end to end (registration + apply), over the ways a symbol can lack a referent
+# per ISA: (call A, jump A, instruction that takes A's address as data), each (bytes, offset of the operand expression)
+_CODE_USES = {
+    "X64": ((b"\xe8\x00\x00\x00\x00", 1), (b"\xe9\x00\x00\x00\x00", 1), (b"\xb8\x00\x00\x00\x00", 1)),
+    "IA32": ((b"\xe8\x00\x00\x00\x00", 1), (b"\xe9\x00\x00\x00\x00", 1), (b"\xb8\x00\x00\x00\x00", 1)),
+    "ARM64": ((b"\x00\x00\x00\x94", 0), (b"\x00\x00\x00\x14", 0), (b"\x00\x00\x00\x90", 0)),       # bl / b / adrp x0
+}
+_RET = {"X64": b"\xc3", "IA32": b"\xc3", "ARM64": b"\xc0\x03\x5f\xd6"}
+# how the new symbol of the request lacks a referent: it has no payload at all, or it only carries an address ("integral" symbol:
+# absolute symbols, linker-script symbols, section-end markers) -- wherever that address happens to lie
+NOREF_KINDS = ("no-payload", "address-zero", "address-of-the-first-block", "address-inside-a-block", "address-of-a-later-block",
+               "address-at-the-end-of-the-last-interval", "address-in-the-gap-between-intervals", "address-beyond-the-module")
+USE_SETS = ("no-use-at-all", "call", "jump", "code-reference", "data-word", "cfi-personality", "symbolForwarding", "every-kind-of-use")
+
+
+def noref_module(isa, ff, pie, a_internal, uses):
+    """a module in which A is used in the places named by `uses` (the others name the bystander K); B is a valid target"""
+    ir, m = create_test_module(ff, isa)
+    if ff == gtirb.Module.FileFormat.ELF:
+        _auxdata.binary_type.set(m, ["DYN"] if pie else ["EXEC"])
+    _, tbi = add_text_section(m, address=0x1000)
+    _, dbi = add_data_section(m, address=0x2000)
+    enc, ret = _CODE_USES.get(isa.name), _RET.get(isa.name)
+    pa = add_proxy_block(m)
+    d0 = add_data_block(dbi, b"\x00" * 8)
+    d1 = add_data_block(dbi, b"\x00" * 8)
+    d2 = add_data_block(dbi, b"\x00" * 8)
+    if enc:
+        (cb, co), (jb, jo), (rb, ro) = enc
+        main = add_code_block(tbi, cb)                 # call
+        site = add_code_block(tbi, rb + jb)            # reference ; jump
+        fa, fb, fk = (add_code_block(tbi, ret) for _ in range(3))
+    else:
+        fa, fb, fk = d1, d2, d2
+    A_ = add_symbol(m, "A", fa if a_internal else pa)
+    B_ = add_symbol(m, "B", fb)
+    K_ = add_symbol(m, "K", fk)
+    X_ = add_symbol(m, "X", d0)
+
+    def who(use):
+        return A_ if (use in uses) else K_
+    if enc:
+        tbi.symbolic_expressions[main.offset + co] = gtirb.SymAddrConst(0, who("call"), set())
+        tbi.symbolic_expressions[site.offset + ro] = gtirb.SymAddrConst(0, who("code-reference"), set())
+        tbi.symbolic_expressions[site.offset + len(rb) + jo] = gtirb.SymAddrConst(0, who("jump"), set())
+        add_edge(ir.cfg, main, who("call").referent, gtirb.EdgeType.Call)
+        add_edge(ir.cfg, main, site, gtirb.EdgeType.Fallthrough)
+        add_edge(ir.cfg, site, who("jump").referent, gtirb.EdgeType.Branch)
+        for f in (fa, fb, fk):
+            add_edge(ir.cfg, f, add_proxy_block(m), gtirb.EdgeType.Return)
+        add_symbol(m, "main", main)
+        cfi_at = main
+    else:
+        cfi_at = d0
+    dbi.symbolic_expressions[0] = gtirb.SymAddrConst(4, who("data-word"), set())
+    _auxdata.cfi_directives.set(m, {gtirb.Offset(cfi_at, 0): [(".cfi_startproc", [], NULL_UUID), (".cfi_personality", [0x9B], who("cfi-personality"))]})
+    _auxdata.symbol_forwarding.set(m, {X_: who("symbolForwarding")})
+    first = main if enc else d0
+    addr = {"address-zero": 0, "address-of-the-first-block": first.address, "address-inside-a-block": d0.address + 3,
+            "address-of-a-later-block": d1.address, "address-at-the-end-of-the-last-interval": dbi.address + dbi.size,
+            "address-in-the-gap-between-intervals": 0x1800, "address-beyond-the-module": 0x7FFF0000}
+    return ir, m, A_, B_, K_, addr
+
+
+def _mentions(m, sym):
+    out = ["expression at %#x" % (i.address + k) for i in m.byte_intervals for k, e in i.symbolic_expressions.items() if sym in list(e.symbols)]
+    out += ["CFI %s" % d[0] for ds in (_auxdata.cfi_directives.get(m) or {}).values() for d in ds if d[2] is sym]
+    out += ["symbolForwarding of %s" % k.name for k, v in (_auxdata.symbol_forwarding.get(m) or {}).items() if v is sym]
+    return out
+
+
+def no_referent_harness(name, isa, ff, pie):
+    """Last sentence of the property: a request whose new symbol has no referent is refused with an error -- by the time apply() returns
+    at the latest -- whatever the reason the symbol has none (no payload / an address only, anywhere), whatever the uses of A (none,
+    control flow, data references, CFI, symbolForwarding), A internal or external.  E: the finite family below on the real
+    RewritingContext.  Control: the very same request with a target that HAS a referent is accepted and applied (so the refusals
+    are not an artefact of the module)."""
+    def harness(ctx):
+        logging.getLogger("gtirb_rewriting").setLevel(logging.CRITICAL)
+        has_code = isa.name in _CODE_USES
+        use_sets = [u for u in USE_SETS if has_code or u not in ("call", "jump", "code-reference")]
+        us = use_sets[ctx.choose(len(use_sets), "uses-of-A")]
+        uses = set(USE_SETS[1:]) if us == "every-kind-of-use" else {us}
+        a_internal = bool(ctx.choose(2, "A-internal"))
+        kinds = NOREF_KINDS + ("control:has-a-referent",)
+        kind = kinds[ctx.choose(len(kinds), "new-symbol")]
+        ir, m, A_, B_, K_, addr = noref_module(isa, ff, pie, a_internal, uses)
+        tag = "retarget/no-referent/%s" % name
+        if kind == "control:has-a-referent":
+            new = B_
+        else:
+            new = gtirb.Symbol("N", payload=addr.get(kind), module=m)
+        had_referent = new.referent is not None
+        rc = RW.RewritingContext(m, [])
+        stage, err = "registration", None
+        try:
+            rc.retarget_symbol_uses(A_, new)
+            stage = "apply"
+            rc.apply()
+            stage = None
+        except Exception as ex:      # any error is a refusal
+            err = ex
+        what = "uses of A: %s; A %s; new symbol: %s" % (us, "internal" if a_internal else "external", kind)
+        if had_referent:
+            ctx.cover("control-accepted")
+            left = _mentions(m, A_)
+            ctx.prove(tag + "/control-the-same-request-with-a-target-that-has-a-referent-is-accepted-and-applied",
+                      z3.BoolVal(err is None and not left), note="%s: %s, A still named by %s" % (what, "%s at %s: %s" % (type(err).__name__, stage, str(err)[:80]) if err else "no error", left))
+            return
+        ctx.cover("no-referent-request")
+        dangling = _mentions(m, new)
+        ctx.prove(tag + "/a-request-whose-new-symbol-has-no-referent-is-refused-with-an-error",
+                  z3.BoolVal(err is not None),
+                  note="%s (payload %r): accepted and applied without an error; afterwards the symbol (referent %s) is named by %s" % (
+                      what, addr.get(kind), "a block" if new.referent is not None else None, dangling or "nothing"))
+        if err is not None and stage == "registration":
+            ctx.prove(tag + "/a-request-refused-at-registration-is-not-recorded-and-changes-nothing",
+                      z3.BoolVal(not rc._symbol_retargets and not dangling))
+    return harness
+
+
 # ------------------------------------------------------------------------------------------------ bounded
 def build(a_internal, b_internal, b_is_data, with_functions, b_alias=False):
     ir, m = create_test_module(gtirb.Module.FileFormat.ELF, gtirb.Module.ISA.X64)
@@ -495,4 +616,9 @@ def jobs(tier="quick", seed=0):
         yield Job("C18/rules/%s" % name, rules_table_harness(name, abi, m), kind="E", func="gtirb_rewriting.abi:%s._sym_expr_rules" % type(abi).__name__)
         yield Job("C18/sym_expr/%s" % name, sym_expr_harness(name, abi, m), setup=lambda: shims.installed([RT]), kind="D",
                   func="gtirb_rewriting._modify.retarget:_retarget_sym_expr", expect_cover=("retargeted",))
+    for (isa, ff) in A._ABIS:
+        for pie in ((True, False) if ff == gtirb.Module.FileFormat.ELF else (False,)):
+            name = "%s-%s-%s" % (isa.name, ff.name, "pie" if pie else "nopie")
+            yield Job("C18/refusals/no-referent-end-to-end/%s" % name, no_referent_harness(name, isa, ff, pie), kind="E",
+                      func="gtirb_rewriting.rewriting:RewritingContext.retarget_symbol_uses", expect_cover=("control-accepted", "no-referent-request"))
     yield Job("C18/retarget-bounded", bounded(tier, seed), kind="B", func="gtirb_rewriting._modify.retarget:retarget_symbol_uses")
